@@ -2,7 +2,6 @@ package rules
 
 import (
 	"fmt"
-	"regexp"
 	"strings"
 
 	"golang.org/x/tools/go/ssa"
@@ -85,20 +84,32 @@ func runC38(c *eng.Ctx) {
 				if !uses {
 					continue
 				}
-				extra := ""
-				own := false
-				re := regexp.MustCompile(`p0\.` + comp + `\b`)
-				for _, a := range eng.Guards(call) {
-					if !re.MatchString(a.Expr) {
+				// The component may be LEFT OUT only when it is empty: every way
+				// through the formatter that bypasses the printing block carries
+				// the component's own emptiness fact. (Printing it in further
+				// cases — e.g. an explicit zero port in front of a port-like
+				// path — is allowed; hiding a non-empty value is not.)
+				blk := call.Block()
+				paths, complete := eng.EnumPaths(ff.Blocks[0], nil, 2000)
+				if !complete {
+					c.Problem("R2", "too many paths in %s", p.formatter)
+				}
+				bypass, lacking := 0, 0
+				sample := ""
+				for _, pt := range paths {
+					if pt.Contains(blk) {
 						continue
 					}
-					if (a.Expr == "(p0."+comp+" == 0)" || a.Expr == `(p0.`+comp+` == "")`) && !a.Pos {
-						own = true
-					} else {
-						extra = a.String()
+					if _, isRet := pt.Last().Instrs[len(pt.Last().Instrs)-1].(*ssa.Return); !isRet {
+						continue
+					}
+					bypass++
+					if !pathHas(pt, `^\(p0\.`+comp+` == (0|"")\)$`, true) {
+						lacking++
+						sample = eng.AtomsText(pt.Atoms)
 					}
 				}
-				c.Check("R2", p.name+"/faithful-inclusion:"+comp, call.Pos(), own && extra == "", comp+" is printed whenever it is non-empty — no other value-dependent condition", extra)
+				c.Check("R2", p.name+"/faithful-inclusion:"+comp, call.Pos(), bypass > 0 && lacking == 0, comp+" is left out only when it is empty — no other value-dependent condition hides it", fmt.Sprintf("%d of %d bypassing paths lack the emptiness fact; e.g. %s", lacking, bypass, sample))
 			}
 		}
 	}
@@ -191,6 +202,7 @@ func runC38(c *eng.Ctx) {
 		}
 	}
 	c.Floor("R4", 9)
+	c38Unambiguous(c, parsedFields)
 }
 
 // c38ParserRejects: on every accepting path of a parser the host is non-empty
